@@ -305,9 +305,13 @@ def _sections(draw, ctx):
         elif what == "S":
             ln = draw(st.integers(0, 500))
             lines.append([f"{lp}{tz}{tick} = S 2 {ln}{rp}", "S", [tick, ln]])
+            if draw(st.integers(0, 5)) == 0:      # an identical line again: two phrases, not one
+                lines.append(list(lines[-1]))
         elif what == "E":
             w = draw(_words)
             lines.append([f"{lp}{tz}{tick} = E {w}{rp}", "E", [tick, w]])
+            for _ in range(draw(st.sampled_from([0, 0, 0, 0, 1, 2]))):   # repeated verbatim
+                lines.append(list(lines[-1]))
         else:
             bad = draw(st.sampled_from([
                 f"{tick} = S 64 10", f"{tick} = N 8 0", f"{tick} = E two words", f"{tick} = S 0 5",
@@ -315,6 +319,8 @@ def _sections(draw, ctx):
                 f"{tick} = B 120000", f'{tick} = E "section x y"', "", "garbage", f"{tick} = H 0 0",
                 f"{tick} = S 22 5", f"{tick} = N 10 0", f"{tick} = S 2 5 5"]))
             lines.append([bad, "X", None])
+            if draw(st.integers(0, 5)) == 0:      # the same non-member twice in a row: two warnings
+                lines.append([bad, "X", None])
     return {"lines": lines}
 
 
